@@ -25,14 +25,14 @@ Toks(ks) == [i \in DOMAIN ks |-> Def(ks[i], i)]
 
 ModeAt(i) == <<"spaced", "tight", "mixed">>[(i % 3) + 1]
 
-TokenCases(z) ==
+TokenCases(zzdummy) ==
   LET all == SetToSeq(UNION {[1..n -> Kinds] : n \in 1..N})
   IN [i \in DOMAIN all |-> [e |-> "lang", text |-> Spell(Toks(all[i]), ModeAt(i), i % 2)]]
 
 (* near-misses: every string obtained from a sentence of exactly N tokens by inserting one token (N+1 tokens:
    beyond the exhaustive token enumeration), spelled like the token cases *)
 InsTok(ks, i, k) == SubSeq(ks, 1, i - 1) \o <<k>> \o SubSeq(ks, i, Len(ks))
-NearCases(z) ==
+NearCases(zzdummy) ==
   LET G == Sets(N)
       S == SetToSeq(G.E[N])
       np == N + 1
@@ -48,7 +48,7 @@ Full  == <<97, 98, 48, 49, 45, 46, 42, 91, 93, 63, 124, 38, 64, 123, 125, 40, 41
            39, 34, 96, 92, 32, 233>>
 Small == <<97, 49, 45, 46, 91, 93, 42, 124, 38, 61, 33, 39, 34, 96, 92, 32, 40, 41, 44, 58>>
 Alpha == IF IOEnv.ALPHA = "full" THEN Full ELSE Small
-CharCases(z) ==
+CharCases(zzdummy) ==
   LET A == {Alpha[i] : i \in DOMAIN Alpha}
       all == SetToSeq(UNION {[1..n -> A] : n \in 1..N})
   IN [i \in DOMAIN all |-> [e |-> "lang", text |-> all[i]]]
@@ -66,7 +66,7 @@ Docs == <<Doc1, Doc2>>
 (* the documents are written once, to OUT.docs; the driver searches every case with a ptext against them *)
 SentCase(ts, docs) == [e |-> "lang", text |-> Spell(ts, "spaced", 0),
                        ptext |-> Spell(Parenthesise(ts), "spaced", 0)]
-SentCases(z) ==
+SentCases(zzdummy) ==
   LET G == Sets(N)
       all == SetToSeq(UNION {G.E[n] : n \in 1..N})
       docs == Docs
@@ -79,19 +79,19 @@ Postfix == {<<"Dot", "Ident">>, <<"Lbracket", "Num", "Rbracket">>, <<"Lbracket",
             <<"Dot", "Lbrace", "Ident", "Colon", "Ident", "Rbrace">>, <<"Dot", "Lbracket", "Ident", "Rbracket">>}
 RECURSIVE ChainsOf(_)
 ChainsOf(n) == IF n = 0 THEN {<<>>} ELSE LET c == ChainsOf(n - 1) IN c \cup {x \o p : x \in c, p \in Postfix}
-ChainKinds(z) == LET cs == ChainsOf(N) \ {<<>>}
+ChainKinds(zzdummy) == LET cs == ChainsOf(N) \ {<<>>}
               IN {<<"Ident">> \o c : c \in cs} \cup {<<"Not", "Ident">> \o c : c \in cs}
                  \cup {<<"At", "Cmp", "Ident">> \o c : c \in ChainsOf(N - 1) \ {<<>>}}
-ChainCases(z) ==
+ChainCases(zzdummy) ==
   LET all == SetToSeq(ChainKinds(0)) docs == Docs
   IN [i \in DOMAIN all |-> SentCase(Toks(all[i]), docs)]
 
-SpellCases(z) ==
+SpellCases(zzdummy) ==
   LET ps == ndJsonDeserialize(IOEnv.IN)
       docs == Docs
   IN [i \in DOMAIN ps |-> SentCase(ps[i].toks, docs)]
 
-Cases(z) == CASE IOEnv.MODE = "tokens" -> TokenCases(0) [] IOEnv.MODE = "chars" -> CharCases(0) [] IOEnv.MODE = "near" -> NearCases(0)
+Cases(zzdummy) == CASE IOEnv.MODE = "tokens" -> TokenCases(0) [] IOEnv.MODE = "chars" -> CharCases(0) [] IOEnv.MODE = "near" -> NearCases(0)
            [] IOEnv.MODE = "sent" -> SentCases(0) [] IOEnv.MODE = "spell" -> SpellCases(0)
            [] IOEnv.MODE = "chains" -> ChainCases(0)
 
